@@ -197,6 +197,54 @@ pub fn run(a: &Args) {
 				if m2 == "open_wallet" {
 					pr["password"] = json!("wrong password");
 				}
+				// sometimes the authenticated payload is a batch that holds a key exchange next to another call: whatever the
+				// listener makes of it, afterwards every request it serves must be answered under the key it came with
+				if rng.chance(1, 8) {
+					let pk2 = cl.new_secret(&mut rng);
+					let batch = json!([{"jsonrpc":"2.0","method":"init_secure_api","params":{"ecdh_pubkey": pk2},"id":1}, {"jsonrpc":"2.0","method":"accounts","params":{"token":null},"id":2}]);
+					let n = cl.nonce();
+					let body = envelope(&k, &batch, n, json!(1));
+					let resp: Value = post(&handler, body.to_string().into_bytes()).ok().and_then(|b| serde_json::from_slice(&b).ok()).unwrap_or(Value::Null);
+					let r = &resp["result"]["Ok"];
+					let dec = open(&k, r["nonce"].as_str().unwrap_or(""), r["body_enc"].as_str().unwrap_or(""));
+					let k2 = dec.as_ref().and_then(|v| v.get(0)).and_then(|e| e["result"]["Ok"].as_str()).and_then(|t| cl.derive(t));
+					rep.count("authenticated:batch-with-key-exchange");
+					let mut served: Vec<[u8; 32]> = vec![];
+					for (name, kk) in [("the key the batch was sent under", Some(k)), ("the key negotiated inside the batch", k2)].iter() {
+						let kk = match kk {
+							Some(x) => *x,
+							None => continue,
+						};
+						let n = cl.nonce();
+						let q = json!({"jsonrpc":"2.0","method":"accounts","params":{"token":null},"id":5});
+						let resp: Value = post(&handler, envelope(&kk, &q, n, json!(5)).to_string().into_bytes()).ok().and_then(|b| serde_json::from_slice(&b).ok()).unwrap_or(Value::Null);
+						rep.eval();
+						if !resp["error"].is_null() {
+							continue; // refused
+						}
+						let r = &resp["result"]["Ok"];
+						match open(&kk, r["nonce"].as_str().unwrap_or(""), r["body_enc"].as_str().unwrap_or("")) {
+							Some(_) => served.push(kk),
+							None => {
+								let other = if Some(kk) == k2 { Some(k) } else { k2 };
+								let under_other = other.and_then(|o| open(&o, r["nonce"].as_str().unwrap_or(""), r["body_enc"].as_str().unwrap_or(""))).is_some();
+								rep.violation("C13|reply-under-a-different-key-than-the-request", &format!("after an authenticated batch containing init_secure_api, a request under {} was accepted but its reply does not decrypt under that key (decrypts under the other key: {})", name, under_other), json!({"job":"c13","reply": trunc(&resp.to_string(), 300)}));
+							}
+						}
+					}
+					// the client goes on with whichever key the listener serves
+					if let Some(s0) = served.get(0) {
+						if *s0 != k {
+							cl.old_keys.push(k);
+							cl.key = Some(*s0);
+						}
+					}
+					if served.is_empty() {
+						rep.violation("C13|no-key-served-after-authenticated-batch", "after an authenticated batch containing init_secure_api the listener serves neither the old nor the new key", json!({"job":"c13"}));
+						break;
+					}
+					continue;
+				}
 				let inner2 = json!({"jsonrpc":"2.0","method": m2,"params": pr,"id": 1});
 				let n = cl.nonce();
 				let body = envelope(&k, &inner2, n, json!(1));
